@@ -26,8 +26,10 @@ CONSTANTS
   \* @type: Int;
   Epoch,                  \* Unix seconds of the NTP epoch 1900-01-01 (negative)
   \* @type: Bool;
-  ForwardOnlyEraUnfold    \* TRUE: the code as it is (only `sec += secondsPerEra`);
-                          \* FALSE: repaired form with the symmetric backward branch
+  ForwardOnlyEraUnfold    \* FALSE (default): the code since /repo commit 28e9272, with the
+                          \*   symmetric backward branch `else if sec >= tref+secondsPerEra/2`;
+                          \* TRUE: the code before it (only `sec += secondsPerEra`), kept as a
+                          \*   specification self-test (NtpTime_faithful.cfg must be refuted)
 
 Half == EraSecs \div 2
 
@@ -49,6 +51,7 @@ Encode(t) == [seconds |-> Sec32(t[1]), fraction |-> Frac(t[2])]
 (*   tref := t0.Unix()                                                     *)
 (*   sec  := epoch + (tref-epoch)/secondsPerEra*secondsPerEra + Seconds    *)
 (*   if sec < tref-secondsPerEra/2 { sec += secondsPerEra }                *)
+(*   else if sec >= tref+secondsPerEra/2 { sec -= secondsPerEra }          *)
 (*   nsec := int64(Fraction) * nanosecondsPerSecond >> 32                  *)
 (*   return time.Unix(sec, nsec)                                           *)
 (***************************************************************************)
